@@ -137,11 +137,37 @@ func (c *Ctx) ruleFunctionCall(rule string) {
 		return
 	}
 	var hcall *ssa.Call
+	var reflCallFn *ssa.Function
 	for _, b := range fn.Blocks {
 		for _, in := range b.Instrs {
 			if call, ok := in.(*ssa.Call); ok && core.StaticCalleeName(&call.Call) == "(reflect.Value).Call" {
 				hcall = call
+				reflCallFn = fn
 			}
+			// or through a helper of the package that passes (handler, args) on to reflect.Value.Call
+			if call, ok := in.(*ssa.Call); ok && hcall == nil {
+				if callee := call.Call.StaticCallee(); callee != nil && len(callee.Blocks) > 0 && len(callee.Params) == 2 && len(call.Call.Args) == 2 {
+					for _, cb := range callee.Blocks {
+						for _, cin := range cb.Instrs {
+							if cc, ok := cin.(*ssa.Call); ok && core.StaticCalleeName(&cc.Call) == "(reflect.Value).Call" &&
+								cc.Call.Args[0] == ssa.Value(callee.Params[0]) && cc.Call.Args[1] == ssa.Value(callee.Params[1]) {
+								hcall = call
+								reflCallFn = callee
+							}
+						}
+					}
+				}
+			}
+		}
+	}
+	// the handler is user code: its panic is the function's failure, not the caller's (IsFunctionReportedError is
+	// documented as "the error originated from the function itself from its return value or a panic")
+	if reflCallFn != nil {
+		kr := key(rule, c.M.Key(fn), "a panic of the handler is caught")
+		if isRecoverScope(reflCallFn) {
+			c.R.Ok(rule, kr, c.M.Pos(reflCallFn.Pos()), "reflective handler call", "made in a function with a deferred recover: the panic is reported, not propagated")
+		} else {
+			c.R.Bad(rule, kr, c.M.Pos(reflCallFn.Pos()), "a panic of the handler escapes Call", "a handler that divides by zero or indexes out of range takes its caller down instead of yielding a function-reported FunctionCallError")
 		}
 	}
 	k := key(rule, c.M.Key(fn), "handler call dominated by the argument-count check")
@@ -208,6 +234,17 @@ func (c *Ctx) ruleFunctionCall(rule string) {
 			continue
 		}
 		fromHandler := derivesFromValue(ctor.Call.Args[0], hcall, 0)
+		// the branch in which the recover helper reported a panic of the handler: whatever is built there describes
+		// the handler's own failure
+		if reflCallFn != nil && reflCallFn != fn {
+			for _, cond := range core.CondsAt(r.Block()) {
+				if x, neq, ok := core.NilCmp(cond.V); ok && neq == cond.True {
+					if ex, ok := x.(*ssa.Extract); ok && ex.Tuple == ssa.Value(hcall) && ex.Index > 0 {
+						fromHandler = true
+					}
+				}
+			}
+		}
 		want := fromHandler
 		if constant.BoolVal(flag.Value) == want {
 			c.R.Ok(rule, k, pos, "error attribution", sprintf("wrapped error derives from the handler's results: %v; flag: %v", fromHandler, want))
@@ -523,6 +560,34 @@ func (c *Ctx) ruleAccept(rule string) {
 		} else {
 			c.R.Bad(rule, k, bad, "a handler can be accepted without IsVariadic() having been consulted",
 				"for func(xs ...T) the reflected parameter type is []T, so a list input passes the type check, but Call does not spread: the call panics or wraps the list into one element")
+		}
+	}
+	if fn := c.fn(rule, "schema.validateInputTypeCompatibility"); fn != nil {
+		// a nil func value has Kind Func and the right type; calling it panics
+		k := key(rule, c.M.Key(fn), "every accepting return has consulted IsNil() of the handler")
+		consult := func(b *ssa.BasicBlock) bool {
+			for _, in := range b.Instrs {
+				if call, ok := in.(*ssa.Call); ok && reflectValueMethod(call) == "IsNil" {
+					return true
+				}
+			}
+			return false
+		}
+		bad := ""
+		entry := fn.Blocks[0]
+		for _, r := range core.ReturnsOf(fn) {
+			if !core.IsNilConst(core.RetVal(r, 0)) || consult(entry) {
+				continue
+			}
+			if r.Block() == entry || blockReaches(entry, r.Block(), consult) {
+				bad = c.M.InstrPos(r)
+			}
+		}
+		if bad == "" {
+			c.R.Ok(rule, k, c.M.Pos(fn.Pos()), "handler acceptance", "IsNil() is on every path to an accepting return")
+		} else {
+			c.R.Bad(rule, k, bad, "a handler can be accepted without IsNil() having been consulted",
+				"a nil func value (an unset field of function type) has Kind Func and the expected signature: the constructor accepts it and the first well-shaped Call panics with 'call of nil function'")
 		}
 	}
 	if fn := c.fn(rule, "schema.NewDynamicCallableFunction"); fn != nil {
